@@ -1,6 +1,7 @@
 """C01 — lossless round trip: what ragc's own reader returns for every sample of every created archive
 equals the input (names, order, bases), decided by TLC on the recorded extraction (ArchiveSemantics, MODE=ragc)."""
 from checks import arch, c02
+from lib import common as C
 
 LEVEL = "model_checking"
 MANIFEST = dict(
@@ -9,11 +10,18 @@ MANIFEST = dict(
          "single PanSN file incl. >= 50 contigs, IUPAC codes, N-runs, reverse complements, duplicates, reordered/missing contigs, contigs shorter than k, "
          "> 50 samples) the real CLI creates an archive; ragc's reader extracts every sample; TLC evaluates the C01 formula of ArchiveSemantics.tla "
          "(sample list, contig names and order, bases) on the recorded extraction against the abstract input. The same archives are decoded "
-         "independently by the TLA+ format semantics under C02.",
+         "independently by the TLA+ format semantics under C02. Compressor.tla model-checks that the stored pieces/flags/part numbers computed by classification reassemble to the contig for every classification choice.",
     note="Trusted: TLC, the generator's FASTA writer. Sampled, not exhaustive; the design-level models of classification/pack layout are roadmap items.",
     technique="TLA+ spec (ArchiveSemantics.tla) evaluated by TLC on recorded create->extract executions of the real CLI/library (trace validation)")
 
 
 def run(ctx):
+    # design level: orientation / part-number bookkeeping of classification vs the reader's reassembly
+    # rule, for every choice of should_reverse x {whole, assign-left/right, split at every position} x flags
+    for c in ["k1", "k2", "k2b", "k3"]:
+        r = C.run_tlc("MC_Compressor", "MC_Compressor_%s.cfg" % c, workdir=ctx.work, workers=4, xmx="6g", timeout=1500)
+        C.tlc_must_pass(r, "MC_Compressor " + c)
+        ctx.add_mc("MC_Compressor_" + c, r, required_actions=("Classify",))
+    ctx.checker_cmds.append("tlc MC_Compressor_k{1,2,2b,3}.cfg MC_Compressor.tla")
     results = arch.run_archives(ctx, "ragc")
     c02.summarize(ctx, results, "ragc")
